@@ -27,3 +27,8 @@ def replay(ctx, path):
 @register("C01")
 def c01(ctx):
     return evalfam.check_c01(ctx)
+
+
+@register("C20")
+def c20(ctx):
+    return evalfam.check_c20(ctx)
